@@ -271,6 +271,13 @@ pub mod numbers {
 // C03
 
 pub fn c03_case(bytes: &[u8], stats: &mut Stats, counting: bool, cfg: &GenConfig) -> Verdict {
+    c03_case_with(bytes, stats, counting, cfg, false)
+}
+
+/// `hints == true`: the (still strictly lazy) adapter consults the engine's dynamic hints inside `resolve_neighbors`
+/// (`dynamically_required_property(..).resolve(..)`) and prunes neighbours with them; starting vertices are never pruned, so
+/// the pull counts stay comparable with the reference. Asking for hints must not make the engine pull anything early.
+pub fn c03_case_with(bytes: &[u8], stats: &mut Stats, counting: bool, cfg: &GenConfig, hints: bool) -> Verdict {
     let mut c = Choices::new(bytes);
     let prefix_choice = c.below(256);
     let case = decode_world_case(&mut c, cfg);
@@ -298,13 +305,85 @@ pub fn c03_case(bytes: &[u8], stats: &mut Stats, counting: bool, cfg: &GenConfig
     }
     let ref_rows: Vec<String> = grouped.iter().flatten().map(canon_row).collect();
 
-    let (counting_adapter, counters) = CountingAdapter::new(GraphAdapter::new(case.world.clone()));
-    #[allow(clippy::arc_with_non_send_sync)]
-    let adapter = Arc::new(counting_adapter);
     let args = engine::args_to_engine(&case.args);
     let iq = compiled.iq.clone();
     let prefix_len = if total == 0 { 0 } else { (prefix_choice * (total + 1)) >> 8 };
-    let result = engine::catch(|| -> Result<Option<String>, String> {
+    let result = if hints {
+        let pcfg = crate::pruning::PruneConfig {
+            ignore_dynamic: crate::checks::hints::ge_tag_sites(&case),
+            use_static: false,
+            use_dynamic: true,
+            use_mandatory: false,
+        };
+        let (pruning, _pstats) = crate::pruning::PruningAdapter::new(case.world.clone(), pcfg);
+        let (counting_adapter, counters) = CountingAdapter::new(pruning);
+        run_lazily(counting_adapter, counters, iq, args, prefix_len, &s_of, &ref_rows)
+    } else {
+        let (counting_adapter, counters) = CountingAdapter::new(GraphAdapter::new(case.world.clone()));
+        run_lazily(counting_adapter, counters, iq, args, prefix_len, &s_of, &ref_rows)
+    };
+    if counting {
+        label_case(stats, &case);
+        if hints {
+            stats.label("adapter_consults_dynamic_hints");
+        }
+        let zero_start = grouped.iter().any(|g| g.is_empty());
+        let multi_start = grouped.iter().any(|g| g.len() >= 2);
+        if n_starts >= 3 {
+            stats.label("three_or_more_starts");
+        }
+        if n_starts >= 3 && total >= 2 && zero_start && multi_start && prefix_len < total && prefix_len > 0 {
+            stats.label("strict_class:three_starts_one_empty_one_multi_row_proper_prefix");
+        }
+        // non-trivial: the per-row bound was actually exercised on a case where it can tell lazy from eager -- at least two
+        // starting vertices, at least one row requested, and the iterator dropped before the end or a start without rows
+        if n_starts >= 2 && prefix_len > 0 && (prefix_len < total || zero_start) {
+            let mut key = case.key();
+            key.extend(prefix_len.to_le_bytes());
+            key.push(hints as u8);
+            if stats.nontrivial(&key) {
+                stats.sample(|| json!({"case": case.short_json(), "rows_per_start": grouped.iter().map(|g| g.len()).collect::<Vec<_>>(), "prefix": prefix_len}));
+            }
+        }
+    }
+    match result {
+        Ok(Ok(None)) => Verdict::Pass,
+        Ok(Ok(Some(msg))) => Verdict::Fail {
+            sig: format!("c03:{}", msg.split(' ').take(4).collect::<Vec<_>>().join("-")),
+            msg: format!("{msg}\nquery:\n{}\nargs: {:?}", case.query_text, case.args),
+        },
+        Ok(Err(e)) if e == "C01-DISAGREEMENT" => Verdict::Discard("c01-disagreement".into()),
+        Ok(Err(e)) if e.starts_with("HARNESS-SELF-CHECK") => Verdict::HarnessBug(format!("{e}\n{}", case.query_text)),
+        Ok(Err(_)) => Verdict::Discard("args-rejected(C12)".into()),
+        Err(p) => {
+            if p.is_budget() {
+                Verdict::Discard("too-much-work".into())
+            } else if p.in_harness() {
+                Verdict::Discard("adapter-misuse(C21)".into())
+            } else {
+                Verdict::Discard("engine-panic(C09)".into())
+            }
+        }
+    }
+}
+
+type LazyRun = Result<Result<Option<String>, String>, crate::engine::PanicInfo>;
+
+fn run_lazily<A>(
+    counting_adapter: CountingAdapter<A>,
+    counters: std::rc::Rc<crate::wrappers::Counters>,
+    iq: Arc<trustfall_core::ir::IndexedQuery>,
+    args: Arc<BTreeMap<Arc<str>, trustfall_core::ir::FieldValue>>,
+    prefix_len: usize,
+    s_of: &[usize],
+    ref_rows: &[String],
+) -> LazyRun
+where
+    A: trustfall_core::interpreter::Adapter<'static, Vertex = crate::adapter::GV> + 'static,
+{
+    #[allow(clippy::arc_with_non_send_sync)]
+    let adapter = Arc::new(counting_adapter);
+    engine::catch(|| -> Result<Option<String>, String> {
         let mut iter = match interpret_ir(adapter.clone(), iq, args) {
             Ok(i) => i,
             Err(e) => return Err(format!("{e:?}")),
@@ -355,53 +434,16 @@ pub fn c03_case(bytes: &[u8], stats: &mut Stats, counting: bool, cfg: &GenConfig
             return Err("C01-DISAGREEMENT".into());
         }
         Ok(None)
-    });
-    if counting {
-        label_case(stats, &case);
-        let zero_start = grouped.iter().any(|g| g.is_empty());
-        let multi_start = grouped.iter().any(|g| g.len() >= 2);
-        if n_starts >= 3 {
-            stats.label("three_or_more_starts");
-        }
-        if n_starts >= 3 && total >= 2 && zero_start && multi_start && prefix_len < total && prefix_len > 0 {
-            stats.label("strict_class:three_starts_one_empty_one_multi_row_proper_prefix");
-        }
-        // non-trivial: the per-row bound was actually exercised on a case where it can tell lazy from eager -- at least two
-        // starting vertices, at least one row requested, and the iterator dropped before the end or a start without rows
-        if n_starts >= 2 && prefix_len > 0 && (prefix_len < total || zero_start) {
-            let mut key = case.key();
-            key.extend(prefix_len.to_le_bytes());
-            if stats.nontrivial(&key) {
-                stats.sample(|| json!({"case": case.short_json(), "rows_per_start": grouped.iter().map(|g| g.len()).collect::<Vec<_>>(), "prefix": prefix_len}));
-            }
-        }
-    }
-    match result {
-        Ok(Ok(None)) => Verdict::Pass,
-        Ok(Ok(Some(msg))) => Verdict::Fail {
-            sig: format!("c03:{}", msg.split(' ').take(4).collect::<Vec<_>>().join("-")),
-            msg: format!("{msg}\nquery:\n{}\nargs: {:?}", case.query_text, case.args),
-        },
-        Ok(Err(e)) if e == "C01-DISAGREEMENT" => Verdict::Discard("c01-disagreement".into()),
-        Ok(Err(e)) if e.starts_with("HARNESS-SELF-CHECK") => Verdict::HarnessBug(format!("{e}\n{}", case.query_text)),
-        Ok(Err(_)) => Verdict::Discard("args-rejected(C12)".into()),
-        Err(p) => {
-            if p.is_budget() {
-                Verdict::Discard("too-much-work".into())
-            } else if p.in_harness() {
-                Verdict::Discard("adapter-misuse(C21)".into())
-            } else {
-                Verdict::Discard("engine-panic(C09)".into())
-            }
-        }
-    }
+    })
 }
 
 pub fn c03(ctx: &CheckCtx) -> i32 {
     let mut cfg = default_gen_config();
     cfg.data.max_vertices = 10;
+    let mut tag_cfg = cfg.clone();
+    tag_cfg.query.tag_bias = true;
     if ctx.replay.is_some() {
-        return replay_with(ctx, &|_s, bytes| c03_case(bytes, &mut Stats::default(), false, &cfg));
+        return replay_with(ctx, &|sub, bytes| c03_case_with(bytes, &mut Stats::default(), false, if sub == "c03-hints" { &tag_cfg } else { &cfg }, sub == "c03-hints"));
     }
     let mut report = Report::new(
         ctx,
@@ -416,6 +458,12 @@ pub fn c03(ctx: &CheckCtx) -> i32 {
     let cases = ctx.cases(300_000, 3_000_000);
     let res = search(ctx, "c03", cases, WORLD_MIN_LEN, WORLD_MAX_LEN, |b, s, counting| c03_case(b, s, counting, &cfg));
     report.absorb(res, &|b| render_world_case(&b[1.min(b.len())..], &cfg));
+    // the same bounds for a lazy adapter that asks for the engine's dynamic hints while resolving neighbours (tag-biased
+    // worlds, so that there are dynamic hints to ask for): consulting hints must not make the engine pull anything early
+    let cases = ctx.cases(150_000, 2_000_000);
+    let res = search(ctx, "c03-hints", cases, WORLD_MIN_LEN, WORLD_MAX_LEN, |b, s, counting| c03_case_with(b, s, counting, &tag_cfg, true));
+    report.absorb(res, &|b| render_world_case(&b[1.min(b.len())..], &tag_cfg));
+    report.assume("the hint-consulting variant prunes neighbours by dynamic hints only (never starting vertices), and ignores the dynamic hints of `>=`-with-tag filters (listed C04 finding)");
     report.finish()
 }
 
